@@ -111,6 +111,7 @@ def initial_state(interp, rep_events):
 def normalise_idle(st):
     st = dict(st)
     st['tr'] = (0, 0)
+    st.pop('had_bad', None)
     for k, v in list(st.items()):
         if isinstance(v, tuple) and v and v[0] == 'enum':
             st[k] = ('enum', v[1], 'older')
@@ -193,6 +194,10 @@ def _explore_one(ctx, cls, variant, config, ex):
                 ex.transitions.append(tr)
                 if d2 in ('CRASHED', 'STOPPED'):
                     continue
+                if ev_name in BAD_E and d2 != 'IDLE':
+                    # this test has reported a failure or an error (a skip is not one)
+                    post = dict(post)
+                    post['had_bad'] = True
                 nst = normalise_idle(post) if d2 == 'IDLE' else clamp(mark_dirty(post))
                 key = (d2, freeze(nst))
                 if key not in seen:
